@@ -111,7 +111,7 @@ func init() {
 		Assumptions: []string{"interface invokes resolve to the repo's implementations (user-supplied Metastore/KMS/AEAD are opaque)", "log.Debugf and metrics calls make no metastore/KMS calls"},
 		Tech:        "static analysis: closure-binding-sensitive call-graph reachability (who-may-call), guarded-by-condition on SSA",
 		NeedU1:      true,
-		Rules:       []func(*Ctx){ruleC20HitIsPure, ruleC20ExternalOnlyViaCache, ruleC20FactoryWideSKCache, ruleC20ReloadOnce, ruleC20DisabledMeansNever, ruleC05StaleMeansReload},
+		Rules:       []func(*Ctx){ruleC20HitIsPure, ruleC20ExternalOnlyViaCache, ruleC20FactoryWideSKCache, ruleC20ReloadOnce, ruleC20DisabledMeansNever, ruleC05StaleMeansReload, ruleC05ReloadRefreshes},
 	})
 }
 
@@ -148,6 +148,7 @@ func ruleC20HitIsPure(c *Ctx) {
 	}
 	cg := newCallGraph(u)
 	ext := externalFuncs(u)
+	dom := newLockDomain(u, pkgApp, "keyCache", "rw")
 	for _, m := range []string{"GetOrLoad", "GetOrLoadLatest"} {
 		f := u.Method(pkgApp, "keyCache", m)
 		if f == nil {
@@ -160,17 +161,31 @@ func ruleC20HitIsPure(c *Ctx) {
 				return
 			}
 			c.CallSites++
+			// the deciding freshness lookup must itself run under the write lock (double-checked locking): otherwise N
+			// goroutines that all saw the entry stale under the read lock each reload it once they get the write lock
 			notFresh := guardedBy(i, false, func(v ssa.Value) bool {
 				ex, ok := strip(v).(*ssa.Extract)
 				if !ok || ex.Index != 1 {
 					return false
 				}
 				cv, ok := ex.Tuple.(*ssa.Call)
-				return ok && staticCallee(cv) == gf
+				if !ok || staticCallee(cv) != gf || dom.stateAt(cv) != lsW {
+					return false
+				}
+				unlocked, _ := pathSearch(cv, func(j ssa.Instruction) pathAction {
+					if j == i {
+						return pathStop
+					}
+					if op, isOp := dom.lockOp(j, recvPathOf(f)); isOp && op == lsU && reaches(j, i) {
+						return pathFound
+					}
+					return pathContinue
+				}, nil)
+				return !unlocked
 			})
 			invalid := guardedBy(i, true, func(v ssa.Value) bool { cv, ok := strip(v).(*ssa.Call); return ok && staticCallee(cv) == isInv })
-			c.check(notFresh || invalid, shortName(f)+"/"+calleeLabel(i), u.ipos(i), "only on the miss/stale edge of getFresh or the invalid edge of IsInvalid",
-				"the loader (metastore/KMS) is invoked although the cached key is fresh and valid: caching no longer avoids external calls")
+			c.check(notFresh || invalid, shortName(f)+"/"+calleeLabel(i), u.ipos(i), "only on the miss/stale edge of a getFresh made under the write lock (re-check) or the invalid edge of IsInvalid",
+				"the loader (metastore/KMS) is invoked without a freshness re-check under the write lock saying the key is missing/stale (or invalid): a fresh cached key is reloaded, or every goroutine that saw it stale reloads it again (one KMS unwrap per session instead of one per factory and interval)")
 		})
 		// fresh path purity
 		allInstrs(f, func(i ssa.Instruction) {
